@@ -1123,7 +1123,7 @@ func funSecond(date time.Time) (int, error) {
 }
 
 func funMillSecond(date time.Time) (int64, error) {
-	return date.UnixNano() / 1e6, nil
+	return date.UnixMilli(), nil
 }
 
 func funWeekDay(date time.Time) (int, error) {
